@@ -2,6 +2,8 @@
 unbounded-integer positions (no machine words anywhere). Used as an oracle for sequential cases
 (C04 'any single-threaded sequence yields what the sequential iterator yields', C16 boundaries, C19 slots)."""
 
+from cases import take_params
+
 W = 1 << 64
 
 
@@ -75,8 +77,8 @@ def expected_rets(case):
                 out.append(["ret", "end"])
             else:
                 a = len(ps)
-                j = a if k == "all" else min(int(k), a)
-                out.append(["ret", "chunk", str(b), str(a), str(a - j)] + [str(val(p)) for p in ps[:j]])
+                sk, j = take_params(k, a)
+                out.append(["ret", "chunk", str(b), str(a), str(a - j)] + [str(val(p)) for p in ps[sk:j]])
         elif name == "bufnew":
             cnt = int(toks[1])
             if cnt == 0:
